@@ -19,6 +19,7 @@
    replaces).  That needs the write-loop model, which is built under C05/C11 (DESIGN section 6, items
    1 and 2); this file proves what that proof will use from the allocator. *)
 From SG Require Import Base.Prelude C07.Allocator C07.AllocatorInv C07.AllocatorProofs C07.Principal C07.PrincipalProofs.
+From SG Require C05.WriteLoop C05.WriteLoopProofs C05.WriteLoopTheorems.
 Open Scope N_scope.
 
 (* ---- uniqueness ---- *)
@@ -145,6 +146,28 @@ Theorem C07_principal_update_numbers : forall ops st tr i fails final st' ev,
   run init (ops ++ principal_update i fails final) = (st', tr ++ ev).
 Proof. exact principal_update_accounted. Qed.
 Print Assumptions C07_principal_update_numbers.
+
+(* ---- the document write path (model: C05/WriteLoop.v, every interleaving of the writers' read / update
+   callback / compare-and-swap steps, CAS retries, rejections, storage errors): once every writer has finished,
+   each sequence handed out for a document write is carried by a committed revision (its sequence or its
+   unused_sequences list) or published as unused, exactly once ---- *)
+Theorem C07_write_path_accounted : forall ac tab ops sched,
+  WriteLoopTheorems.all_finished (WriteLoop.run true false ac tab ops sched) ->
+  NoDup (WriteLoopTheorems.committed_seqs (WriteLoop.run true false ac tab ops sched)
+         ++ WriteLoop.released (WriteLoop.run true false ac tab ops sched)) /\
+  forall x, (1 <= x <= WriteLoop.last (WriteLoop.run true false ac tab ops sched))%N <->
+            (In x (WriteLoopTheorems.committed_seqs (WriteLoop.run true false ac tab ops sched)) \/
+             In x (WriteLoop.released (WriteLoop.run true false ac tab ops sched))).
+Proof. exact WriteLoopTheorems.accounted_when_finished. Qed.
+Print Assumptions C07_write_path_accounted.
+
+(* per-document increasing: each committed write's sequence is strictly above the one it replaced *)
+Theorem C07_document_sequences_increase : forall ac tab ops sched,
+  WriteLoopProofs.commits_ok 0%N (WriteLoop.commits (WriteLoop.run true false ac tab ops sched)) /\
+  WriteLoopProofs.last_seq 0%N (WriteLoop.commits (WriteLoop.run true false ac tab ops sched))
+    = WriteLoop.d_seq (WriteLoop.st (WriteLoop.run true false ac tab ops sched)).
+Proof. exact WriteLoopTheorems.acked_seq_increasing. Qed.
+Print Assumptions C07_document_sequences_increase.
 
 (* ---- non-vacuity: three allocators, an interleaved nextSequenceGreaterThan, batch growth, idle
    release, a principal update with two lost CAS races, stops ---- *)
